@@ -93,7 +93,7 @@ def run_tlc(d, module, cfg_text, workers=1, timeout=600, env_extra=None, xmx="2g
         env.update(env_extra)
     cmd = ["java", "-XX:+UseParallelGC", "-Xmx" + xmx, "-cp", TLC_JAR, "tlc2.TLC",
            "-workers", str(workers), "-metadir", os.path.join(d, "states_" + module), "-cleanup",
-           "-noGenerateSpecTE", "-config", module + ".cfg"] + list(extra_args) + [module + ".tla"]
+           "-noGenerateSpecTE", "-maxSetSize", "20000000", "-config", module + ".cfg"] + list(extra_args) + [module + ".tla"]
     try:
         p = subprocess.run(cmd, cwd=d, env=env, stdout=subprocess.PIPE, stderr=subprocess.STDOUT, text=True,
                            timeout=timeout)
